@@ -3,6 +3,7 @@ package main
 import (
 	"fmt"
 	"go/ast"
+	"go/constant"
 	"go/token"
 	"go/types"
 	"sort"
@@ -35,6 +36,7 @@ func init() {
 	ruleText["R06.11"] = "in every generator containing reflect.Value.CallSlice, each run-time closure that appends to frame.deferred also contains a CallSlice call (the ellipsis of f(s...) survives deferral)"
 	ruleText["R06.12"] = "in every deferred recover, the store of the recovered value into frame.recovered lies under no condition on frame.recovered itself: a panic raised by a deferred function replaces the one in progress"
 	ruleText["R06.13"] = "in the closures of the generator of the panic builtin, panic(v) with v of static type reflect.Value lies under a condition on v.IsValid()/v.CanInterface(): otherwise the panic carries v.Interface()"
+	ruleText["R06.14"] = "the generator bound in the universe table to each builtin Go allows in a defer statement (close, copy, delete, panic, print, println) calls the shared defer wrapper (the function testing deferStmt and recording into frame.deferred)"
 	ruleText["R06.5"] = "a converting recover assigns Panic{Value: <recovered>, ...} to the error result of its function"
 }
 
@@ -52,6 +54,7 @@ func runC06(c *Config, r *Report) {
 	c06R11(ic, r, "R06.11")
 	c06R12(ic, r)
 	c06R13(ic, r)
+	c06R14(ic, r)
 	// R06.6: defers, recover and panics inside instantiated generic code rest on the AST copy
 	// being identical to a freshly built tree (same analysis as C01/R01.4).
 	sub := newReport("C01")
@@ -989,7 +992,17 @@ func c06R13(ic *IC, r *Report) {
 	}
 	info := ic.Info
 	n := 0
-	for k, fl := range (&c02ctx{ic: ic}).closuresOf(fi) {
+	// the function literals of the generator: its run-time closures, or the function handed to
+	// the defer wrapper
+	var lits []*ast.FuncLit
+	ast.Inspect(fi.Decl.Body, func(m ast.Node) bool {
+		if fl, ok := m.(*ast.FuncLit); ok {
+			lits = append(lits, fl)
+			return false
+		}
+		return true
+	})
+	for k, fl := range lits {
 		for _, c := range callsInBuiltin(info, fl.Body, "panic") {
 			if len(c.Args) != 1 {
 				continue
@@ -1010,5 +1023,100 @@ func c06R13(ic *IC, r *Report) {
 	}
 	if n == 0 {
 		r.Errorf("R06.13: no call of the panic builtin found in the closures of _panic")
+	}
+}
+
+// c06R14: a builtin that Go allows as the callee of a defer statement (close, copy, delete,
+// panic, print, println) is deferred, not executed on the spot: `defer panic("x")` raises its
+// panic when the function returns, after the body. Sibling agreement over the generators bound
+// to those builtins in the universe table: each goes through the shared defer wrapper (the
+// in-package function that tests n.anc.kind == deferStmt and records the call in
+// frame.deferred) or tests the deferStmt parent itself. R06.13 follows the panic into the
+// function literal handed to the wrapper.
+func c06R14(ic *IC, r *Report) {
+	info := ic.Info
+	// the defer wrapper: an in-package function whose body mentions deferStmt and assigns frame.deferred
+	deferredFld := ic.field("frame", "deferred")
+	wrappers := map[*types.Func]bool{}
+	mentionsDefer := func(body ast.Node) bool {
+		found := false
+		ast.Inspect(body, func(m ast.Node) bool {
+			if id, ok := m.(*ast.Ident); ok {
+				if c, ok := info.Uses[id].(*types.Const); ok && c.Name() == "deferStmt" {
+					found = true
+				}
+			}
+			return !found
+		})
+		return found
+	}
+	for _, fi := range ic.F {
+		if fi.Decl.Body == nil || fi.Obj == nil || !mentionsDefer(fi.Decl.Body) {
+			continue
+		}
+		stores := false
+		ast.Inspect(fi.Decl.Body, func(m ast.Node) bool {
+			if as, ok := m.(*ast.AssignStmt); ok {
+				for _, l := range as.Lhs {
+					if selField(info, l) == deferredFld {
+						stores = true
+					}
+				}
+			}
+			return true
+		})
+		if stores {
+			wrappers[fi.Obj] = true
+		}
+	}
+	deferrable := map[string]bool{"close": true, "copy": true, "delete": true, "panic": true, "print": true, "println": true}
+	n := 0
+	for _, f := range ic.Pk.Syntax {
+		ast.Inspect(f, func(m ast.Node) bool {
+			kv, ok := m.(*ast.KeyValueExpr)
+			if !ok {
+				return true
+			}
+			tv, ok := info.Types[kv.Key]
+			if !ok || tv.Value == nil || tv.Value.Kind() != constant.String || !deferrable[constant.StringVal(tv.Value)] {
+				return true
+			}
+			cl, ok := unparen(kv.Value).(*ast.CompositeLit)
+			if !ok {
+				return true
+			}
+			for _, e := range cl.Elts {
+				ekv, ok := e.(*ast.KeyValueExpr)
+				if !ok || types.ExprString(ekv.Key) != "builtin" {
+					continue
+				}
+				gid := identOf(ekv.Value)
+				if gid == nil {
+					continue
+				}
+				g, ok := info.Uses[gid].(*types.Func)
+				if !ok {
+					continue
+				}
+				gfi := ic.G.Funcs[g]
+				if gfi == nil || gfi.Decl.Body == nil {
+					continue
+				}
+				n++
+				handles := wrappers[g]
+				for _, c := range allCalls(gfi.Decl.Body) {
+					if cf, ok := calleeOf(info, c).(*types.Func); ok && wrappers[cf] {
+						handles = true
+					}
+				}
+				name := constant.StringVal(tv.Value)
+				r.Check(handles, "R06.14", "builtin:"+name+"/deferrable", ic.pos(gfi.Decl.Pos()), "the generator handles the defer statement (through the shared defer wrapper)",
+					"the generator "+funcName(gfi.Decl)+" of the builtin "+name+" neither goes through the defer wrapper nor tests for a defer statement: `defer "+name+"(...)` executes the builtin at the defer statement instead of when the function returns (defer panic(\"x\") aborts the body)")
+			}
+			return true
+		})
+	}
+	if n < 6 {
+		r.Errorf("R06.14: only %d of the deferrable builtins (close, copy, delete, panic, print, println) found in the universe table", n)
 	}
 }
